@@ -221,6 +221,10 @@ def main(ck):
             c = ig.structural_case(ck.rng, kind)
             c.update(type='table', vclass=kind, role='-', validate=False)
             run_cases.append(c)
+    if nstruct:
+        for c in ig.respelled_duplicate_cases():
+            c.update(type='table', vclass=c['kind'], role='-', validate=False)
+            run_cases.append(c)
     # ---------------- witnesses of implAccept_counter
     for typ, text in COUNTER_WITNESSES:
         c = ig.one_cell(typ, text, 'me')
